@@ -12,7 +12,7 @@
   hold, hence re-parse and copies reproduce the map; a style string parses to what its rendering parses to.
   C10d: equality ignores order.  C10e: assigning another element's style copies the map.
 -/
-import AHP.Lemmas.AttrsFrame
+import AHP.Lemmas.AttrsStyleAmp
 namespace AHP.C10
 open AHP AHP.Attrs
 
@@ -182,6 +182,30 @@ theorem view_reparse (T : Tables) {e : El} (hr : Reach T e) (h : StyRT e.sty) (h
     simp only [List.isEmpty_cons, Bool.false_eq_true, if_false, Option.getD_some]
     rw [← hs, parse_render h, parse_render h]
 
+/-- `NoAmp` (no property name and no value contains `&`) is an invariant of all histories whose operands are free
+    of `&` (`AmpFreeAttrs`: the `style` value in the constructor's list; `AmpFreeOp`: names, values and whole-style
+    strings handed to the style writers, and the value written to a `style` attribute through any attribute
+    writer; operations that do not address `style` are unrestricted) … -/
+theorem reach_amp_free (T : Tables) (tag : Str) (sc : Bool) (attrs : List (Str × Option Str)) (ops : List Op)
+    (ha : AmpFreeAttrs attrs) (ho : ∀ op ∈ ops, AmpFreeOp T op) : NoAmp (run T (mk T tag sc attrs) ops).sty :=
+  ampInv_run T ops ho (ampInv_mk T tag sc attrs ha)
+
+/-- … one step at a time … -/
+theorem amp_free_step (T : Tables) (op : Op) (hop : AmpFreeOp T op) {e : El} (h : NoAmp e.sty) : NoAmp (step T e op).2.sty :=
+  ampInv_step T op hop h
+
+/-- … and then the rendered `style` value contains no `&` -/
+theorem rendering_amp_free {m : AL Str} (h : NoAmp m) : '&' ∉ asStr m := amp_not_mem_asStr h
+
+/-- `view_reparse` with the hypotheses on the operands only: after any history whose style operands are inside
+    the property's domain (`GoodStyOp`: trimmed, `;`-free names and values) and free of `&` (`AmpFreeOp`,
+    `AmpFreeAttrs`), re-parsing the rendered start tag yields the same style map. -/
+theorem view_reparse_history (T : Tables) (tag : Str) (sc : Bool) (attrs : List (Str × Option Str)) (ops : List Op)
+    (hg : ∀ op ∈ ops, GoodStyOp op) (ha : AmpFreeAttrs attrs) (ho : ∀ op ∈ ops, AmpFreeOp T op) :
+    (reparse T (run T (mk T tag sc attrs) ops)).1.sty = (run T (mk T tag sc attrs) ops).sty :=
+  view_reparse T ⟨tag, sc, attrs, ops, rfl⟩ (reach_roundtrippable T tag sc attrs ops hg)
+    (rendering_amp_free (reach_amp_free T tag sc attrs ops ha ho))
+
 /-- cloneNode, copy, unpickling, `eval(repr(tag))` reproduce the map -/
 theorem view_clone (T : Tables) {e : El} (hr : Reach T e) (h : StyRT e.sty) : (clone T e).1.sty = e.sty := by
   unfold clone
@@ -251,5 +275,36 @@ example : (run T0 (mk T0 ['d', 'i', 'v'] false [])
        .styProp "padding-top".toList (some [])]).sty = [("display".toList, "block".toList)] := by decide
 
 example : GoodStyName "padding-top".toList := ⟨by decide, by decide, by decide, by decide⟩
+
+/-- the operand conditions are satisfiable: the history above is inside `GoodStyOp` and `AmpFreeOp`, and re-parsing
+    reproduces its map -/
+def exOps : List Op :=
+  [.styDot "paddingTop".toList (some "5px".toList), .setStyle "display".toList (some "block".toList),
+   .styProp "padding-top".toList (some []), .setAttr "title".toList (some "a&b".toList),
+   .styAssign (some "color: red; float:left".toList)]
+
+example : ∀ op ∈ exOps, AmpFreeOp T0 op := by
+  intro op h
+  simp only [exOps, List.mem_cons, List.not_mem_nil, or_false] at h
+  rcases h with rfl | rfl | rfl | rfl | rfl
+  · exact ⟨by decide, fun s hs => by cases hs; decide⟩
+  · exact ⟨by decide, fun s hs => by cases hs; decide⟩
+  · exact ⟨by decide, fun s hs => by cases hs; decide⟩
+  · exact fun hk => absurd hk (by decide)
+  · exact fun s hs => by cases hs; decide
+
+example : AmpFreeAttrs [("style".toList, some "top: 1px".toList), ("title".toList, some "a&b".toList)] := by
+  intro p hp
+  simp only [List.mem_cons, List.not_mem_nil, or_false] at hp
+  rcases hp with rfl | rfl
+  · exact fun _ s hs => by cases hs; decide
+  · exact fun hk => absurd hk (by decide)
+
+example : (run T0 (mk T0 ['d', 'i', 'v'] false [("style".toList, some "top: 1px".toList)]) exOps).sty
+    = [("color".toList, "red".toList), ("float".toList, "left".toList)] := by decide
+
+/-- outside the operand condition the re-parse does change the map: `&quot;` in a value is read back as `"` -/
+example : (reparse T0 (run T0 (mk T0 ['d', 'i', 'v'] false []) [.styProp "content".toList (some "&quot;".toList)])).1.sty
+    ≠ (run T0 (mk T0 ['d', 'i', 'v'] false []) [.styProp "content".toList (some "&quot;".toList)]).sty := by decide
 
 end AHP.C10
